@@ -46,14 +46,14 @@ def twin(ctx, r, wd):
     t.open()
     now = C.T0 + 1000
     for s in r.steps:
-        if s["op"][0] != "reopen":
+        if s["op"][0] not in C.IDLE:
             now += 17
         if s["real"] != "ok":
             sp = s.get("spec") or {}
             if sp.get("grow") or sp.get("tilt"):
                 t.block_for(sp)        # the caller changed its object before the (rejected) call: that happened in both worlds
             continue
-        if s["op"][0] != "reopen":
+        if s["op"][0] not in C.IDLE:
             t.now = now - 17
         t.step(s["op"], s.get("spec"))
     t.finish()
@@ -73,7 +73,7 @@ def run(ctx):
     try:
         for r in runs:
             rejected = [s for s in r.steps if s["real"] != "ok"]
-            first_ok = next((i for i, s in enumerate(r.steps) if s["real"] == "ok" and s["op"][0] != "reopen"), None)
+            first_ok = next((i for i, s in enumerate(r.steps) if s["real"] == "ok" and s["op"][0] not in C.IDLE), None)
             nontriv = first_ok is not None and any(s["real"] != "ok" for s in r.steps[first_ok + 1:])
             tags = [f"start={r.style}"] + [f"{s['op'][0]}:{s['real']}:{(s.get('spec') or {}).get('bad', '-')}" for s in rejected]
             ctx.case((r.desc, str(C.jsonable_hist(r.hist))), nontrivial=nontriv,
